@@ -1,10 +1,11 @@
 (* Properties_C13.v — C13: PANOC-OCP `Converged` certifies input-constrained stationarity of the OCP.
    Only theorem statements closed by `exact`, each followed by Print Assumptions, plus non-vacuity examples.
    The exit-status function `stop_status_ocp` is GENERATED from panoc-ocp.tpp on every run (gen/StopChain.v). *)
+From Coquelicot Require Import Coquelicot.
 From Coq Require Import Reals List ZArith Lra Lia Bool.
 From Flocq Require Import Raux.
 From Alpaqa Require Import Num NumR Vec Prox ProxProofs ProxVec SolverStatus SolverKernels SolverKernelsProofs
-                           StopChain StopChainProofs Ocp OcpProofs PanocOcp PanocOcpProofs PanocOcpLoop PanocOcpLoopProofs PanocOcpE2E.
+                           StopChain StopChainProofs Ocp OcpProofs PanocOcp PanocOcpProofs PanocOcpLoop PanocOcpLoopProofs PanocOcpE2E PanocOcpE2EDeriv.
 Import ListNotations.
 Local Open Scope R_scope.
 
@@ -219,6 +220,25 @@ Theorem C13_cost_gradient_unique :
 Proof. exact is_cost_gradient_unique. Qed.
 Print Assumptions C13_cost_gradient_unique.
 
+(* ... and that characterisation IS the directional derivative of the OCP cost V (sum of stage costs, terminal cost and penalty terms)
+   when the problem's functions are differentiable along curves with the derivatives the problem reports:
+     diff_f      s ↦ f_t(x(s), u(s)) has derivative A_t x'(0) + B_t u'(0)          (A_t = jA, B_t = jB at (x(0), u(0)))
+     diff_stage  s ↦ stage cost_t(x(s), u(s)) (l_t∘h_t + ½ dist²_μ of the shifted stage constraints) has derivative q_t·x'(0) + r_t·u'(0)
+     diff_term   s ↦ terminal cost(x(s)) has derivative q_N·x'(0)
+   for every pair of componentwise differentiable curves.  The chain rule over the horizon is PROVED (cost_sum_derive): for every
+   direction δ,  d/ds V(u + s·δ) at s = 0  equals  Σ_k <g_k, δ_k>  with g the blocks of the gradient. *)
+Theorem C13_cost_gradient_is_directional_derivative :
+  forall f h hN l lN c cN jA jB gqr gqN jc jcN d Dlb Dub DNlb DNub (x0 y μ : list R),
+  diff_f f jA jB d -> diff_stage f h l c jA jB gqr jc d Dlb Dub y μ -> diff_term hN lN cN gqN jcN d DNlb DNub y μ ->
+  length x0 = dnx d ->
+  forall u g : list R, length u = (dN d * dnu d)%nat ->
+  is_cost_gradient f h hN c cN jA jB gqr gqN jc jcN d Dlb Dub DNlb DNub x0 y μ u g ->
+  forall δ, length δ = (dN d * dnu d)%nat ->
+  exists gs, g = concat gs /\
+    is_derive (fun s => e_V f h hN l lN c cN d Dlb Dub DNlb DNub x0 y μ (vadd u (vscale s δ))) 0 (dots gs (e_stages d δ)).
+Proof. exact cost_gradient_is_directional_derivative. Qed.
+Print Assumptions C13_cost_gradient_is_directional_derivative.
+
 (* ---- non-vacuity of C13_panoc_ocp_converged_is_stationary: N = 1, nx = nu = 1, x1 = x0 + u, cost ½u² + ½x1², terminal constraint
         x1 ∈ [-1, 2] with y = 0, μ = 1, U = [-1, 1], x0 = 0, initial guess u = 0 (the constrained minimiser): every hypothesis holds and
         the run (Gauss-Newton mode, L_0 = L_max = 1) returns Converged at the first stop check *)
@@ -267,4 +287,38 @@ Proof.
     destruct (Hrun _ H0 ltac:(cbn; lra) (Heps _ eq_refl)) as (o & Ho & Hs & Hk & _).
     { rewrite Eip. cbv -[Rplus Rmult Rle_bool Rlt_bool Req_bool Rdiv Rinv Ropp Rminus IZR Rabs sqrt Rle]. rbool; try lra; split_Rabs; lra. }
     exists o. split; [exact Ho|]. split; [exact Hs|exact Hk].
+Qed.
+
+(* ---- the differentiability hypotheses of C13_cost_gradient_is_directional_derivative are satisfiable: N = 2, x⁺ = x + u, cost Σ ½u² + ½x_N² *)
+Definition nvd2 : dims := {| dN := 2; dnx := 1; dnu := 1; dnh := 0; dnc := 0; dnhN := 0; dncN := 0 |}.
+
+Lemma vder1 (x : R -> list R) dx : vder 1 x dx -> exists a, dx = [a] /\ is_derive (fun s => nth 0 (x s) 0) 0 a /\ forall s, length (x s) = 1%nat.
+Proof.
+  intros (L & Ls & Hd). destruct dx as [|a [|? ?]]; try discriminate. exists a. split; [reflexivity|]. split; [exact (Hd 0%nat ltac:(lia))|exact Ls].
+Qed.
+
+Example C13_derivative_hypotheses_nonvacuous :
+  diff_f nv_f (fun _ _ _ => [[1]]) (fun _ _ _ => [[1]]) nvd2 /\
+  diff_stage nv_f (fun _ _ _ => []) nv_l (fun _ _ => []) (fun _ _ _ => [[1]]) (fun _ _ _ => [[1]]) (fun _ z _ => [0; nth 1 z 0]) (fun _ _ => []) nvd2 [] [] [] [] /\
+  diff_term (fun _ => []) nv_lN (fun _ => []) (fun x _ => [nth 0 x 0]) (fun _ => []) nvd2 [] [] [] [].
+Proof.
+  split; [|split].
+  - intros t x u dx du Hx Hu. destruct (vder1 x dx Hx) as (a & -> & Da & Lx). destruct (vder1 u du Hu) as (b & -> & Db & Lu).
+    split; [reflexivity|]. split; [reflexivity|]. intros [|i] Hi; [|cbn in Hi; lia].
+    cbn. apply (is_derive_ext (fun s => plus (nth 0 (x s) 0) (nth 0 (u s) 0))); [reflexivity|].
+    replace (1 * a + 0 + (1 * b + 0)) with (plus a b) by (unfold plus; cbn; ring).
+    now apply @is_derive_plus.
+  - intros t x u dx du Hx Hu. destruct (vder1 x dx Hx) as (a & -> & Da & Lx). destruct (vder1 u du Hu) as (b & -> & Db & Lu).
+    unfold stage_cost, stage_fwd, stage_lin, lin_of, q_of, nv_l. cbn.
+    apply (is_derive_ext (fun s => / 2 * (nth 0 (u s) 0 * nth 0 (u s) 0))).
+    + intros s. rewrite !app_nth2 by (rewrite Lx; lia). rewrite Lx. reflexivity.
+    + rewrite app_nth2 by (rewrite Lx; lia). rewrite Lx. cbn [Nat.sub].
+      set (U := fun s => nth 0 (u s) 0) in *. change (is_derive (fun s => / 2 * (U s * U s)) 0 (0 * a + 0 + (U 0 * b + 0))).
+      assert (EU : ex_derive (fun s => U s) 0) by (exists b; exact Db).
+      auto_derive; [repeat split; exact EU|]. change (fun x0 : R => U x0) with U. rewrite (is_derive_unique U 0 b Db). field.
+  - intros x dx Hx. destruct (vder1 x dx Hx) as (a & -> & Da & Lx).
+    unfold term_cost, term_fwd, term_q, qN_of, nv_lN. cbn.
+    set (X := fun s => nth 0 (x s) 0) in *. change (is_derive (fun s => / 2 * (X s * X s)) 0 (X 0 * a + 0)).
+    assert (EX : ex_derive (fun s => X s) 0) by (exists a; exact Da).
+    auto_derive; [repeat split; exact EX|]. change (fun x0 : R => X x0) with X. rewrite (is_derive_unique X 0 a Da). field.
 Qed.
